@@ -261,6 +261,10 @@ class C08(Check):
                 for sh in range(nsh):
                     yield {"mode": "dfs", "ops": ops, "lock": "grant_all", "clock_steps": 0, "hb_steps": 0, "weather": w,
                            "k": k_main, "shard": sh, "nshards": nsh}
+        for z in ("JST-9", "EST5"):       # non-UTC process zones: lease age = local clock vs the store's UTC LastModified
+            for sh in range(2):
+                yield {"mode": "dfs", "ops": ["append", "append"], "lock": "real", "clock_steps": 1, "hb_steps": 0,
+                       "k": 1, "shard": sh, "nshards": 2, "tz": z}
         # one committer + a thief that takes the lock over and keeps it + the clock: all <=1-preemption schedules
         for ops in (["append"], ["delsnap"], ["delete"]):
             for thief in (True, "release"):
@@ -286,7 +290,8 @@ class C08(Check):
                    "ops": [rng.choice(["append", "delsnap", "delete"]) for _ in range(3)],
                    "lock": rng.choice(["real", "real", "grant_all"]), "clock_steps": rng.choice([1, 2]),
                    "hb_steps": rng.choice([0, 1, 2]), "seed": seed * 100000 + i, "runs": 6 if tier == "quick" else 12,
-                   "weather": rng.choice([None, None, "503_before", "lost_response", "applied_412"])}
+                   "weather": rng.choice([None, None, "503_before", "lost_response", "applied_412"]),
+                   "tz": rng.choice([None, None, "JST-9", "EST5"])}
 
     def run_case(self, case: Any, res: CaseResult, tier: str) -> None:
         ip = Interposer().install()
